@@ -645,6 +645,18 @@ def run_corpus(c):
                    dict(goals=[s.describe() for s in specs]), x.tolist())
 
 
+def replay(c, rp):
+    """re-run the deterministic parts (proofs, corpus, kernel enumeration, probes) and show the
+    recorded failing inputs"""
+    c.prove()
+    for f in rp.get("failures", []) + rp.get("correspondence_disagreements", []):
+        print("recorded:", f["what"])
+    run_corpus(c)
+    stream_update_bounds(c)
+    probe_f23(c)
+    probe_f27(c)
+
+
 def run(c):
     c.rule = (
         "synthetic linear model (x'=-p x+u+c, y=x+q; 2-5 steps, 1-2 members, nominals) with random goal sets: "
@@ -666,11 +678,15 @@ def run(c):
     c.prove()
     run_corpus(c)
     stream_update_bounds(c)
-    stream_validate(c, c.n(400, 12000))
-    stream_rows(c, c.n(80, 1500))
-    stream_solved(c, c.n(80, 1500))
+    stream_validate(c, c.n(400, 25000))
+    stream_rows(c, c.n(80, 3000))
+    stream_solved(c, c.n(80, 3000))
     probe_f23(c)
     probe_f27(c)
     c.exhaustive = False
+    c.notes.append("partial: C04_critical_hard needs the critical interval to share a point with the entry already "
+                   "stored for its key (otherwise known finding F27, witness theorem C04_critical_disjoint_witness); "
+                   "the validation model covers int priorities and list-shaped ranges/nominals; F23 (weight of "
+                   "minimisation goals unchecked) is the code's behaviour and is mirrored by the model. ")
     c.notes.append("update_bounds enumerated over all weak orderings of its four arguments (complete for a "
                    "min/max kernel); the other streams are samples; the unbounded claims are the theorems")
